@@ -23,7 +23,7 @@ Definition sub (r : role) (t : tree) : list (role * tree) :=
       else if K "list" then tag RNode (seq_parts t)
       else if K "if" then tag RNode (firstc "condition" t ++ firstc "then_body" t ++ firstc "else_body" t) ++ redirs
       else if K "while" || K "until" then tag RNode (firstc "condition" t ++ firstc "body" t) ++ redirs
-      else if K "for" || K "select" then tag RNode (firstc "body" t) ++ tag (RWord false) (children "words" t) ++ redirs
+      else if K "for" || K "select" then tag RNode (firstc "body" t) ++ tag (RWord true) (children "words" t) ++ redirs
       else if K "for-arith" then tag RNode (firstc "body" t) ++ redirs
       else if K "case" then tag (RWord false) (children "word" t) ++ tag RPat (children "patterns" t) ++ redirs
       else if K "function" then tag RNode (firstc "body" t)
@@ -45,7 +45,7 @@ Definition sub (r : role) (t : tree) : list (role * tree) :=
       else if K "cond-not" then tag RCond (children "operand" t)
       else if K "cond-paren" then tag RCond (children "inner" t)
       else []
-  | RRedir => if K "heredoc" then [] else tag (RWord false) (firstc "target" t)
+  | RRedir => if K "heredoc" then [] else tag (RWord (str_eqb (attr_d "op" t) HERESTRING_OP)) (firstc "target" t)
   | RPat => tag RNode (firstc "body" t)
   end.
 
@@ -56,10 +56,25 @@ Fixpoint reach_fuel (n : nat) (r : role) (t : tree) : list (role * tree) :=
             | S m => flat_map (fun p => reach_fuel m (fst p) (snd p)) (sub r t)
             end.
 
+(* the words of a simple command whose quoted text bash may evaluate later: assignment values and the variable-name
+   arguments of test / [ / read / printf -v (words without expansions only: the others are walked part by part) *)
+Fixpoint name_raws (base : str) (words : list str) (nassign pos : nat) (l : list tree) : list str :=
+  match l with
+  | [] => []
+  | t :: rest =>
+      (if negb (nonempty (children "parts" t)) && (Nat.ltb pos nassign || names_variable base words pos nassign)
+       then [attr_d "value" t] else []) ++ name_raws base words nassign (S pos) rest
+  end.
+Definition command_raws (t : tree) : list str :=
+  let ws := map word_value (children "words" t) in
+  let tokens := skip_assignments ws in
+  name_raws (match tokens with b :: _ => b | [] => [] end) ws (length ws - length tokens) 0 (children "words" t).
+
 (* the raw strings bash expands that a node consumed in role r must have scanned *)
 Definition raw_positions (r : role) (t : tree) : list str :=
   match r with
-  | RNode => if is_kind "for-arith" t then [attr_d "init" t; attr_d "cond" t; attr_d "incr" t] else []
+  | RNode => if is_kind "for-arith" t then [attr_d "init" t; attr_d "cond" t; attr_d "incr" t]
+             else if is_kind "command" t then command_raws t else []
   | RExp => if mem_str (kind_of t) SUBST_KINDS then [] else if is_kind "word" t then [] else map snd (strs_of t)
   | RWord true => if nonempty (children "parts" t) then [] else [attr_d "value" t]
   | RWord false => []
